@@ -43,6 +43,10 @@ HFull(n) ==
      \cup {-TopMul(n) - 1, -TopMul(n), -TopMul(n) + 1}
      \cup UNION {Around(k * n) : k \in {2, -2, 4099, -4099, 65537 * 2047, -65537 * 2047}}
 HSmall(n) == {MinInt, -1, n + 1, MaxInt}
+HSeq(n) == {MinInt, n + 1}
+\* the spellings of a key that is not nil but has no bytes: ByteEncoder([]byte{}), StringEncoder(""), ByteEncoder(nil).
+\* hashPartitioner.Partition hashes each of them (zero bytes), so each is a key in the sense of the property.
+EmptyKinds == {"empty", "empty_s", "empty_n"}
 
 \* FNV-1a (hash/fnv New32a) of a few keys, as int32; checked against the Go standard library on
 \* every run (the harness logs the hash it computed itself, the observer uses the logged one).
